@@ -78,14 +78,6 @@ func (u c06Uni) alphabet() (ops []mOp, inGuard []bool) {
 	return
 }
 
-func containsRule(rs [][]string, r []string) bool {
-	for _, x := range rs {
-		if sameRule(x, r) {
-			return true
-		}
-	}
-	return false
-}
 
 // c06Observers returns the observer spec (S-expression items) and a function that records the
 // same observables from the implementation.
